@@ -265,15 +265,12 @@ func runC03(c *Ctx, r *Report, tier string) {
 		return !found
 	}
 	isOpt := "call:argumentIsOption(call:(*parseState).pop("
-	var tailCalls, tokCalls []ssa.Instruction
-	for _, in := range c.instrs(pa, c.isCallTo("(*parseState).addArgs")) {
-		a := in.(ssa.CallInstruction).Common().Args
-		t := c.term(a[len(a)-1])
-		switch {
-		case strings.HasPrefix(t, "parseState.args("):
-			tailCalls = append(tailCalls, in)
-		case len(sliceLitElems(a[len(a)-1])) == 1 && strings.HasPrefix(c.term(sliceLitElems(a[len(a)-1])[0]), "parseState.arg("):
-			tokCalls = append(tokCalls, in)
+	var tailCalls []ssa.Instruction
+	tailIn := map[ssa.Instruction]ssa.Instruction{}
+	for _, as := range c.addArgsSites(pa) {
+		if as.Kind == "tail" {
+			tailCalls = append(tailCalls, as.Site)
+			tailIn[as.Site] = as.In
 		}
 	}
 	// terminator: the tail call reachable under "--"
@@ -302,12 +299,20 @@ func runC03(c *Ctx, r *Report, tier string) {
 		}, nil)
 		r.Check(a && b, "PASSAFTER", pn, "tail passed through REQ(¬option syntax ∧ not a command of the current lookup)", c.ipos(in), "both edges necessary", fmt.Sprintf("¬argumentIsOption necessary=%v lookup.commands[token]==nil necessary=%v", a, b))
 		// the token call precedes the tail call on every path
-		ok := false
-		for _, tc := range tokCalls {
-			if _, mp := c.MustPass(pa, isInstr(in), isInstr(tc), nil, nil); mp {
-				ok = true
+		// (the tail call as reached through this site; a token call is recognised by its operand in the frame it is
+		// reached in, so both may sit in one new helper or behind a shared wrapper)
+		base := len(c.frames)
+		site, inner := in, tailIn[in]
+		target := func(x ssa.Instruction) bool {
+			if x != inner {
+				return false
 			}
+			if inner == site {
+				return true
+			}
+			return len(c.frames) > base && ssa.Instruction(c.frames[base]) == site
 		}
+		_, ok := c.MustPass(pa, target, func(x ssa.Instruction) bool { return c.addArgsKind(x) == "tok" }, nil, nil)
 		r.Check(ok, "PASSAFTER", pn, "token first, then tail", c.ipos(in), "the tail append is reachable only through addArgs(current token)", "the tail can be appended without (or before) the current token")
 		r.Check(leaves(in), "PASSAFTER", pn, "loop left after passing the tail", c.ipos(in), "break", "parsing continues after the tail was passed through")
 		// `--` under PassDoubleDash never gets here: the terminator is recognised first
@@ -346,8 +351,8 @@ func runC03(c *Ctx, r *Report, tier string) {
 	}
 	// requeue
 	nRq := 0
-	for _, in := range c.instrs(pa, c.isCallTo("(*parseState).addArgs")) {
-		if argsHoldPop(c, in.(ssa.CallInstruction)) {
+	for _, as := range c.addArgsSites(pa) {
+		if as.Kind == "pop" {
 			nRq++
 		}
 	}
@@ -662,4 +667,52 @@ func aliasesField(c *Ctx, v ssa.Value, prefix string, seen map[ssa.Value]bool) b
 		}
 	}
 	return strings.HasPrefix(c.term(v), prefix)
+}
+
+// addArgsSite: one way a function hands tokens to addArgs — directly, or through new wrappers (then Site is the
+// wrapper call in the function's own body and the operand is judged in that call's frame).
+type addArgsSite struct {
+	Site ssa.Instruction
+	In   ssa.Instruction // the addArgs call itself (Site, or inside the wrappers Site leads to)
+	Kind string          // "tail" (the whole remaining queue), "tok" (the current token), "pop" (the token popped in this iteration), "other"
+}
+
+// addArgsKind classifies an addArgs call by its operand, rendered in the frames current at the time of the call
+// (path predicates are evaluated inside the frame they are reached in).
+func (c *Ctx) addArgsKind(in ssa.Instruction) string {
+	ci, ok := in.(ssa.CallInstruction)
+	if !ok || c.calleeName(ci.Common()) != "(*parseState).addArgs" {
+		return ""
+	}
+	a := ci.Common().Args
+	last := a[len(a)-1]
+	t := c.term(last)
+	switch es := sliceLitElems(last); {
+	case strings.HasPrefix(t, "parseState.args("):
+		return "tail"
+	case len(es) == 1 && strings.HasPrefix(c.term(es[0]), "parseState.arg("):
+		return "tok"
+	case len(es) == 1 && strings.HasPrefix(c.term(es[0]), "call:(*parseState).pop("):
+		return "pop"
+	}
+	return "other"
+}
+
+func (c *Ctx) addArgsSites(fn *ssa.Function) []addArgsSite {
+	var out []addArgsSite
+	for _, ci := range c.instrsCtx(fn, c.isCallTo("(*parseState).addArgs")) {
+		site := ci.In
+		if len(ci.Frames) > 0 {
+			site = ci.Frames[0]
+		}
+		kind := "other"
+		c.within(ci.Frames, func() { kind = c.addArgsKind(ci.In) })
+		if c.addArgsKind(ci.In) == kind {
+			// the call speaks for itself (directly in fn, or in a helper with one call site whose parameters resolve):
+			// rules address it where it stands, with the conditions around it
+			site = ci.In
+		}
+		out = append(out, addArgsSite{site, ci.In, kind})
+	}
+	return out
 }
